@@ -45,7 +45,7 @@ func isZeroConst(v ssa.Value) bool {
 }
 
 func ruleErrorDiscipline(c *Ctx, rule string) {
-	c.rule(rule, "error discipline: no function of the package returns a nil error on a path where an error obtained from a call is known to be non-nil (except after that path established an agreed clean-end sentinel: err == io.EOF / errors.Is), and no function returns a zero result together with a nil error (frozen, justified exceptions aside)")
+	c.rule(rule, "error discipline: no function of the package returns a nil error on a path where an error obtained from a call is known to be non-nil (except after that path established an agreed clean-end sentinel: err == io.EOF / errors.Is), no function returns a zero result together with a nil error (frozen, justified exceptions aside), no call's values are used while its error is never examined, and a pointer or interface returned together with an error is dereferenced only where that error is known to be nil")
 	w := c.W
 	nFn, nRet := 0, 0
 	for _, fn := range w.Funcs {
